@@ -97,7 +97,7 @@ def main(ck, tier, w):
             cb = r0.choice(['csvdump', 'csvdump', 'unspentcsvdump', 'balances', 'simplestats', 'opreturn'])
             tr = w.sub('trace')
             dump = w.mk('out') if cb in ('csvdump', 'unspentcsvdump', 'balances') else None
-            res_ = run.run_parser(d.path, cb, dump=dump, trace=tr, skip='spend,create,eval', verify=r0.random() < 0.5)
+            res_ = run.run_parser(d.path, cb, dump=dump, trace=tr, skip='spend,create,eval,dump_row,bal_row', verify=r0.random() < 0.5)
             chain = [(h, blocks[b]) for h, b in enumerate(r['active'])]
             probs = []
             if res_.rc != 0:
